@@ -2,7 +2,6 @@ package p9p
 
 import (
 	"fmt"
-	"log"
 	"net"
 	"sync"
 	"time"
@@ -260,16 +259,10 @@ func (c *conn) write(responses chan *Fcall) {
 			// won't overflow the msize.
 
 			if err := c.ch.WriteFcall(c.ctx, resp); err != nil {
-				if err, ok := err.(net.Error); ok {
-					if err.Timeout() || err.Temporary() {
-						// TODO(stevvooe): A full idle timeout on the
-						// connection should be enforced here. We log here,
-						// since this is less common.
-						log.Printf("p9p: temporary error writing fcall: %v", err)
-						continue
-					}
-				}
-
+				// Every write error is terminal, time-outs included: the
+				// response is lost (possibly half written), and the
+				// channel's buffered writer keeps returning the first
+				// error, so no later response could be sent either.
 				c.CloseWithError(fmt.Errorf("error writing fcall: %v", err))
 				return
 			}
